@@ -1463,7 +1463,7 @@ func (g *G) tupleBlock() {
 		"ts[idx(tick(), len(ts))]", "pickInts(ts)[tj]", "pickMap(tm)[ti]", "_"}
 	values := []string{"ti", "tj", "ts[0]", "ts[ti]", "tm[0]", "tm[tj]", "tick()", "ti + 1", "ts[tj] * 2", "len(tm)", "7", "-3"}
 	for n, k := 0, rx.Range(g.rt, "ntuples", 2, 5); n < k; n++ {
-		w := rx.Range(g.rt, "tuplewidth", 2, 3)
+		w := rx.Range(g.rt, "tuplewidth", 1, 3) // one target: a call in the index runs before a call on the right
 		var lhs, rhs []string
 		blanks := 0
 		for i := 0; i < w; i++ {
@@ -1482,6 +1482,9 @@ func (g *G) tupleBlock() {
 		}
 		if blanks == w {
 			lhs[0] = "ts[ti]"
+		}
+		if w == 1 {
+			lhs[0], rhs[0] = rx.Pick(g.rt, "singleplace", "ts[idx(tick(), len(ts))]", "pickInts(ts)[tj]", "pickMap(tm)[tick()]", "tm[tick()]"), rx.Pick(g.rt, "singleval", "tick()", "tick() * 10", "ti + tick()")
 		}
 		g.line("%s = %s", strings.Join(lhs, ", "), strings.Join(rhs, ", "))
 		g.line("fmt.Println(\"tuple\", ti, tj, ts, len(tm), tm[0], tm[1], tm[2], tm[3])")
